@@ -148,9 +148,9 @@ let dec_of_n = function
 
 let handle (x : sx) : unit =
   match x with
-  | L [A "sql"; id; kind; h; c; ms] ->
+  | L [A "sql"; id; kind; h; c; ms; full] ->
     let (txt, mr) = pcase_sql { pc_id = z_of id; pc_kind = kind_of kind; pc_hints = hints_of h; pc_ctx = ctx_of c;
-                                pc_ms = list_of matcher_of ms } in
+                                pc_ms = list_of matcher_of ms; pc_full = tbl_of full } in
     Printf.printf "sql %d %s %s\n" (int_of id) (ostr txt) (b01 mr)
   | L [A "prof"; id; table; from; to_; cluster; sels] ->
     Printf.printf "prof %d %s\n" (int_of id)
